@@ -410,3 +410,55 @@ Definition catalogue_agrees (specs : list ow_spec) (cat : list (string * descrip
   /\ (forall s, In s specs ->
         exists d d', describe s = Some d /\ lookup (sp_name s) cat = Some d' /\ desc_same d d')
   /\ (forall k d', In (k, d') cat -> exists s, In s specs /\ sp_name s = k).
+
+(** * Identity of the catalogue entries: WHAT is registered under each spec name.
+    The Description comparison above cannot see a hand-written registration
+    that replaces the generated one by a type embedding the wrapper (same
+    Description(), different Run).  So the running binary also reports, for
+    every key, the dynamic type of what the registered factory returns, the
+    source file of the registered function and of every interface method
+    ([entry_id], from reflect / runtime.FuncForPC), and the translator reports
+    where ow-specgen puts the wrapper of each spec ([wrapper_id]). *)
+Fixpoint lookup_gen {A} (k : string) (l : list (string * A)) : option A :=
+  match l with
+  | [] => None
+  | (k', a) :: r => if String.eqb k k' then Some a else lookup_gen k r
+  end.
+
+Definition autogenerated : string := "<autogenerated>"%string.
+
+(** the method is code declared for the type itself: not absent, not promoted from an embedded type *)
+Definition method_ok_b (mf : string * string) : bool :=
+  negb (String.eqb (snd mf) EmptyString) && negb (String.eqb (snd mf) autogenerated).
+
+Definition identity_ok_b (w : wrapper_id) (e : entry_id) : bool :=
+  String.eqb (ei_type e) (wi_type w) && ei_ptr_to_struct e
+  && String.eqb (ei_pkg e) (wi_pkg w) && String.eqb (ei_name e) (wi_name w)
+  && String.eqb (ei_second_type e) (wi_type w) && ei_fresh e
+  && String.eqb (ei_factory_file e) (wi_file w)
+  && negb (Nat.eqb (length (ei_methods e)) 0) && forallb method_ok_b (ei_methods e).
+
+Definition check_identities (specs : list ow_spec) (ws : list (string * wrapper_id))
+           (ids : list (string * entry_id)) : bool :=
+  strs_eqb (map sp_name specs) (map fst ws)
+  && forallb (fun kw => String.eqb (fst kw) (wi_name (snd kw))) ws
+  && nodupb (map fst ids)
+  && forallb (fun kw => match lookup_gen (fst kw) ids with
+                        | Some e => identity_ok_b (snd kw) e
+                        | None => false
+                        end) ws
+  && forallb (fun ke => mem_str (fst ke) (map fst ws)) ids.
+
+Definition identities_agree (specs : list ow_spec) (ws : list (string * wrapper_id))
+           (ids : list (string * entry_id)) : Prop :=
+  map sp_name specs = map fst ws /\ NoDup (map fst ids)
+  /\ (forall s, In s specs ->
+        exists w e, In (sp_name s, w) ws /\ wi_name w = sp_name s
+          /\ lookup_gen (sp_name s) ids = Some e
+          /\ ei_type e = wi_type w /\ ei_ptr_to_struct e = true
+          /\ ei_pkg e = wi_pkg w /\ ei_name e = sp_name s
+          /\ ei_second_type e = ei_type e /\ ei_fresh e = true
+          /\ ei_factory_file e = wi_file w
+          /\ ei_methods e <> []
+          /\ (forall m f, In (m, f) (ei_methods e) -> f <> EmptyString /\ f <> autogenerated))
+  /\ (forall k e, In (k, e) ids -> exists s, In s specs /\ sp_name s = k).
